@@ -2,7 +2,6 @@ package main
 
 import (
 	"fmt"
-	"runtime"
 
 	"github.com/openacid/slim/xsimrt"
 )
@@ -96,6 +95,9 @@ type Task struct {
 	name   string
 	body   func(t *Task)
 	resume chan struct{}
+	slot   int  // transport identity (unique in the process)
+	dyn    bool // goroutine started by the code under test (dyn.go)
+	daemon bool // ... by a package initialiser: survives the runs
 	done   bool
 	prio   int
 
@@ -111,9 +113,8 @@ type Sim struct {
 	rng    *Rng
 	tasks  []*Task
 	cur    *Task
-	back   chan struct{}
-	turn   int // spin transport: id of the task holding the baton, -1 = scheduler
 	doneCh chan struct{}
+	static int // number of tasks created by the harness (the rest are dynamic)
 
 	steps      int64
 	totalSteps int64 // estimate of the run's total step count (for PCT change points)
@@ -161,6 +162,8 @@ type Sim struct {
 	siteFn       func(site int) string // site -> function name (for probes), may be nil
 	probes       map[string]int64
 	deadlock     bool
+	dynSpawned   int
+	foreign0     int64
 }
 
 const fnvPrime = 1099511628211
@@ -169,8 +172,6 @@ func newSim(strat Strategy, replay []Seg, totalSteps int64) *Sim {
 	s := &Sim{
 		strat:        strat,
 		rng:          NewRng(strat.Seed),
-		back:         make(chan struct{}),
-		turn:         -1,
 		totalSteps:   totalSteps,
 		maxSteps:     5_000_000,
 		evHash:       14695981039346656037,
@@ -187,7 +188,7 @@ func newSim(strat Strategy, replay []Seg, totalSteps int64) *Sim {
 }
 
 func (s *Sim) addTask(name string, body func(t *Task)) *Task {
-	t := &Task{id: len(s.tasks), name: name, body: body, resume: make(chan struct{})}
+	t := &Task{id: len(s.tasks), name: name, body: body, resume: make(chan struct{}), slot: newSlot()}
 	s.tasks = append(s.tasks, t)
 	return t
 }
@@ -245,7 +246,9 @@ func (s *Sim) forceSwitch() {
 	if s.stop || s.steps > s.maxSteps || s.spin > 2000*(len(s.tasks)+1) {
 		if !s.stop {
 			s.stop = true
-			if s.steps > s.maxSteps {
+			if s.steps > s.maxSteps || xsimrt.ForeignWaits != s.foreign0 {
+				// (somebody waits for a channel the simulator does not own, a
+				// timer for example: not a deadlock, the run is abandoned)
 				s.stopWhy = "budget"
 			} else {
 				s.stopWhy = "deadlock"
@@ -359,15 +362,7 @@ func (s *Sim) park(t *Task, site int) {
 			}
 		}
 	}
-	if spinTransport {
-		s.turn = -1
-		for s.turn != t.id {
-			runtime.Gosched()
-		}
-		return
-	}
-	s.back <- struct{}{}
-	<-t.resume
+	transportPark(t)
 }
 
 // --- scheduler loop (main goroutine) ----------------------------------------
@@ -415,6 +410,10 @@ func (s *Sim) pickNext() *Task {
 		s.quantum = 1 + s.rng.Intn(s.strat.Q)
 		return s.cyclicAfter(live)
 	case "none":
+		if s.forced {
+			s.forced = false
+			return s.cyclicAfter(live)
+		}
 		return live[0]
 	case "sweep":
 		tgt := s.strat.Task
@@ -513,12 +512,14 @@ func (s *Sim) run() {
 		}
 		sortInt64(s.changeAt)
 	}
+	s.static = len(s.tasks)
 	if spinTransport {
 		s.doneCh = make(chan struct{}, len(s.tasks)+1)
+		nStatic := s.static
 		defer func() {
 			// hand-off of everything the tasks wrote (instances loaded by
 			// loader tasks, outcomes) to the main goroutine
-			for range s.tasks {
+			for i := 0; i < nStatic; i++ {
 				<-s.doneCh
 			}
 		}()
@@ -526,13 +527,7 @@ func (s *Sim) run() {
 	for _, t := range s.tasks {
 		t := t
 		go func() {
-			if spinTransport {
-				for s.turn != t.id {
-					runtime.Gosched()
-				}
-			} else {
-				<-t.resume
-			}
+			transportAwaitFirst(t)
 			t.body(t)
 			t.done = true
 			t.inUnit = false
@@ -544,22 +539,43 @@ func (s *Sim) run() {
 				// the only visible synchronisation of the lane: task end ->
 				// scheduler, one buffered slot per task (no edge between tasks)
 				s.doneCh <- struct{}{}
-				s.turn = -1
+				turnVar = -1
 				return
 			}
-			s.back <- struct{}{}
+			backCh <- struct{}{}
 		}()
 	}
+	// children of earlier ambient calls (e.g. a background goroutine started by
+	// the load of the subject) become tasks of this run
+	for _, k := range amb.kids {
+		k.id = len(s.tasks)
+		s.tasks = append(s.tasks, k)
+		s.probe("adopted_goroutine")
+	}
+	amb.kids = nil
+	prevGo, prevFS := xsimrt.GoHook, xsimrt.ForceSwitch
+	curSim = s
+	s.foreign0 = xsimrt.ForeignWaits
 	xsimrt.Hook = s.hook
 	xsimrt.ForceSwitch = s.forceSwitch
+	if amb.on {
+		xsimrt.GoHook = s.goDyn
+	}
 	defer func() {
-		xsimrt.Hook = nil
-		xsimrt.ForceSwitch = nil
+		curSim = nil
+		xsimrt.GoHook, xsimrt.ForceSwitch = prevGo, prevFS
+		// dynamic tasks that outlive the run go (back) to the ambient scheduler
+		for _, t := range s.tasks[s.static:] {
+			if !t.done {
+				amb.kids = append(amb.kids, t)
+			}
+		}
+		ambRefreshHook()
 	}()
 	for {
 		prev := s.cur
 		t := s.pickNext()
-		if t == nil {
+		if t == nil || s.staticDone() {
 			return
 		}
 		if prev != nil && prev != t {
@@ -574,16 +590,30 @@ func (s *Sim) run() {
 		}
 		s.cur = t
 		s.segs = append(s.segs, Seg{T: t.id})
-		if spinTransport {
-			s.turn = t.id
-			for s.turn != -1 {
-				runtime.Gosched()
-			}
-			continue
-		}
-		t.resume <- struct{}{}
-		<-s.back
+		transportResume(t)
 	}
+}
+
+func (s *Sim) staticDone() bool {
+	for _, t := range s.tasks[:s.static] {
+		if !t.done {
+			return false
+		}
+	}
+	return true
+}
+
+// goDyn is xsimrt.GoHook while the run executes: the new goroutine is one more
+// task (called in task context, holding the baton).
+func (s *Sim) goDyn(body func()) {
+	t := &Task{id: len(s.tasks), name: "dyn", dyn: true, slot: newSlot(), resume: make(chan struct{})}
+	if s.strat.Kind == "pct" {
+		t.prio = 1 + s.rng.Intn(len(s.tasks)+1)
+	}
+	s.tasks = append(s.tasks, t)
+	s.dynSpawned++
+	amb.spawned++
+	startDyn(t, body)
 }
 
 // noteOverlap is called when task t enters a unit: which unit kinds are other
@@ -649,9 +679,9 @@ func trimSegs(in []Seg) []Seg {
 // uninstalls it and reports the count.
 func countHook() func() int64 {
 	var n int64
-	xsimrt.Hook = func(int) { n++; liveTicks++ }
+	setHook(func(int) { n++; liveTicks++ })
 	return func() int64 {
-		xsimrt.Hook = nil
+		setHook(nil)
 		return n
 	}
 }
@@ -662,8 +692,8 @@ func countHook() func() int64 {
 // Unit.run do). Used for calls that must terminate because the same call
 // terminates in a known number of steps on a reference instance.
 func withStepCap(cap int64, f func()) (n int64, capped bool) {
-	prev := xsimrt.Hook
-	xsimrt.Hook = func(site int) {
+	prev := getHook()
+	setHook(func(site int) {
 		n++
 		liveTicks++
 		if prev != nil {
@@ -675,8 +705,8 @@ func withStepCap(cap int64, f func()) (n int64, capped bool) {
 			capped = true
 			panic(abortUnit{"stepcap"})
 		}
-	}
-	defer func() { xsimrt.Hook = prev }()
+	})
+	defer func() { setHook(prev) }()
 	f()
 	return
 }
